@@ -2,6 +2,7 @@ pub mod hist;
 pub mod desc;
 pub mod vec;
 pub mod reg;
+pub mod local;
 use crate::Area;
 pub fn lookup(name: &str) -> Option<Box<dyn Area>> {
     match name {
@@ -9,6 +10,7 @@ pub fn lookup(name: &str) -> Option<Box<dyn Area>> {
         "desc" => Some(Box::new(desc::DescArea)),
         "vec" => Some(Box::new(vec::VecArea)),
         "reg" => Some(Box::new(reg::RegArea)),
+        "local" => Some(Box::new(local::LocalArea)),
         _ => None,
     }
 }
